@@ -201,7 +201,7 @@ prop("C01", ["stack_gou_glue", "proto_glue", "plain_get_env", "raw_insert_or_upd
      ["sharded_get_01", "stack_get_w1r1_nock", "stack_set_temp_w1r1", "plain_set_seq", "plain_put_seq"],
      outside=["byte-granular reads (values are abstracted to content ids; 'complete' is set only by the last write)", "NFS close-to-open semantics", "peers that violate the protocol"], assumptions=COMMON_ASSUME + [RELY])
 prop("C02", ["c02_cleanup_temp_debris", "proto_glue", "raw_insert_or_update_basic", "raw_insert_or_touch_basic", "c02_cleanup_temp_by_age", "c02_cleanup_temp_missing_dir", "raw_apply_update_evict_a_moveback_b", "raw_ops_sanity_twin"],
-     ["plain_set_seq", "plain_put_seq", "plain_set_fault", "sharded_set_absent", "sharded_put_in_secondary", "stackc_set_w1r1_cp", "stackc_set_temp_w1r1_cp", "stack_set_temp_w1r1"],
+     ["plain_set_seq", "plain_put_seq", "plain_set_fault", "sharded_set_absent", "stackc_set_w1r1_cp", "stackc_set_temp_w1r1_cp", "stack_set_temp_w1r1"],
      outside=["power-loss reordering of un-fsynced directory updates (documented: directories are not fsynced)", "validity is asserted at every call boundary of KFS, i.e. at every point where the process can die between two system calls"],
      assumptions=COMMON_ASSUME)
 prop("C03", ["stack_gou_glue", "stack_ops_glue", "stack_finalize_glue", "raw_insert_or_update_basic", "raw_insert_or_touch_basic", "stack_ops_sanity_twin"],
@@ -212,10 +212,10 @@ prop("C04", ["stack_gou_glue", "proto_glue", "plain_get_env", "plain_touch_env",
      outside=["linearizability is decided as a forward simulation per operation (linearization point = the publishing / opening call), not by enumerating histories"],
      assumptions=COMMON_ASSUME + [RELY])
 prop("C05", ["c05_cleanup_temp_vanish", "proto_glue", "plain_get_env", "plain_touch_env", "raw_apply_update_evict_a_moveback_b", "raw_collect_a_temp", "raw_ops_sanity_twin"],
-     ["plain_write_missing_dir_env", "raw_collect_ab_sub", "sharded_set_in_secondary"],
+     ["plain_write_missing_dir_env", "raw_collect_ab_sub"],
      outside=["adversarial deletion of young temp files (excluded by the property)"], assumptions=COMMON_ASSUME + [RELY])
 prop("C06", ["proto_glue", "plain_get_env", "plain_touch_env", "plain_ops_sanity_twin"],
-     [],
+     ["plain_write_missing_dir_env"],
      outside=["blocking inside the kernel", "step bounds are asserted as call-count constants under every environment answer, with unwinding assertions on"],
      assumptions=COMMON_ASSUME + [RELY])
 prop("C07", ["c07_prune_glue", "c07_apply_glue", "raw_collect_a_temp", "raw_collect_a_app", "raw_collect_empty_temp", "raw_apply_update_evict_a_moveback_b", "raw_ops_sanity_twin"],
@@ -232,11 +232,11 @@ prop("C10", ["proto_glue", "c10_trigger", "plain_ops_sanity_twin"], ["plain_set_
      outside=["concurrent writers (excluded by the property)", "several caches sharing one thread's countdown"],
      assumptions=COMMON_ASSUME + ["after maintenance at most `capacity` files remain (C07)"])
 prop("C11", ["proto_glue", "plain_get_seq", "plain_touch_seq", "raw_insert_or_update_basic", "raw_insert_or_touch_basic", "raw_ops_sanity_twin"],
-     ["plain_set_seq", "plain_put_seq", "sharded_get_01", "sharded_get_10", "sharded_touch_01", "sharded_set_absent", "sharded_set_in_secondary", "sharded_put_in_secondary", "stack_set_w1r1"],
+     ["plain_set_seq", "plain_put_seq", "sharded_get_01", "sharded_get_10", "sharded_touch_01", "sharded_set_absent", "stack_set_w1r1"],
      outside=["histories are covered as one inductive step from an arbitrary valid state (simulation relation), not enumerated", "in-memory load estimates and the trigger countdown are arbitrary in the pre-state (this is what several handles amount to)"],
      assumptions=COMMON_ASSUME)
 prop("C12", ["proto_glue", "c12_mapping", "c12_constants", "c12_new_clamps", "sharded_ops_sanity_twin"],
-     ["c12_format_id", "sharded_get_01", "sharded_get_10", "sharded_touch_01", "sharded_set_absent", "sharded_set_in_secondary", "sharded_put_in_secondary"],
+     ["c12_format_id", "sharded_get_01", "sharded_get_10", "sharded_touch_01", "sharded_set_absent"],
      outside=["directory names for shard indices >= 2^20", "probe order is checked with the two candidate ids fixed to (0,1) and (1,0)"],
      assumptions=COMMON_ASSUME + ["z3 and cvc5 agree (both consulted on every obligation)"])
 prop("C13", ["readonly_glue", "stack_gou_glue", "stack_ops_glue", "stack_get_w1r1_nock", "stack_touch_w1r2", "stack_set_w0r1", "stack_ops_sanity_twin"],
